@@ -58,6 +58,11 @@ def norm(s):
             k = _has_as(inner)
             prev = s[i - 1] if i > 0 else ""
             qualified_pos = i == 0 or s[i - 2 : i] == "::" or prev in " (&[,"
+            if k < 0 and qualified_pos and inner.startswith("impl ") and " for " in inner:
+                # `<impl Trait for Type>` (impls on foreign types): same shape as `<Type as Trait>`
+                tr, ty = inner[5:].split(" for ", 1)
+                inner = "%s as %s" % (ty, tr)
+                k = _has_as(inner)
             if k >= 0 and qualified_pos:
                 a = norm(inner[:k])
                 b = norm(inner[k + 4 :])
@@ -103,7 +108,7 @@ def short(p):
     if p is None:
         return None
     p = norm(p)
-    m = re.match(r"^<(.+?) as (.+?)>::(.*)$", p)
+    m = re.search(r"(?:^|::)<(.+?) as (.+?)>::(.*)$", p)
     if m:
         return "<%s as %s>::%s" % (last_seg(m.group(1)), last_seg(m.group(2)), m.group(3))
     segs = p.split("::")
